@@ -79,6 +79,18 @@ def cut_positions(rng, spec, n_mid):
     return sorted(c for c in cuts if lo <= c <= hi)
 
 
+def impl_decode_reversed(bits, maxlen=17):
+    import pyais
+    ais = cc.ais
+    try:
+        msg = pyais.decode(*reversed(ais.bits_to_sentences(bits, maxlen=maxlen)))
+    except Exception as e:   # noqa: BLE001
+        return ('Raise', type(e).__name__, str(e)[:200])
+    d = msg.asdict()
+    names = [f.name for f in type(msg).fields()]
+    return ('Ok', type(msg).__name__, [(n, d[n]) for n in names], msg)
+
+
 def check_payload(ctx, variant, bits, spec, cuts, full=None, sample=False):
     """one payload, many cuts: correspondence on every prefix + the oracle against the untruncated decode."""
     rep = ctx.rep
@@ -100,6 +112,13 @@ def check_payload(ctx, variant, bits, spec, cuts, full=None, sample=False):
         for comp, k, text in oracle(full, pre, layout, n, spec['class']):
             rep.violation({'entry': 'decode', 'class': spec['class'], 'component': comp, 'kind': k}, text,
                           {'bits': bits, 'n': n})
+        if i % 3 == 0 and n > 6 * 17:
+            # the same prefix carried by several short sentences handed over in reverse order (decode() accepts any order):
+            # the covered fields and the None fields must be the same -- pad bits of the closing fragment must not leak in
+            pre2 = impl_decode_reversed(bits[:n])
+            for comp, k, text in oracle(full, pre2, layout, n, spec['class']):
+                rep.violation({'entry': 'decode(reversed parts)', 'class': spec['class'], 'component': comp, 'kind': k},
+                              text + ' [parts passed in reverse order]', {'bits': bits, 'n': n, 'reversed': True})
         if sample and pre[0] == 'Ok' and i == len(cuts) // 2:
             rep.sample({'variant': spec['class'], 'payload_bits': len(bits), 'cut': n,
                         'decoded_prefix': {k: cc.show(v) for k, v in pre[2]}})
@@ -230,5 +249,6 @@ def replay(ctx, data):
     spec = cc.parse_spec(m.ask(f'spec {bits}'))
     if spec is None:
         return None
-    bad = oracle(cc.impl_decode(bits), cc.impl_decode(bits[:n]), spec['layout'], n, spec['class'])
+    pre = impl_decode_reversed(bits[:n]) if data.get('reversed') else cc.impl_decode(bits[:n])
+    bad = oracle(cc.impl_decode(bits), pre, spec['layout'], n, spec['class'])
     return '; '.join(t for _, _, t in bad) if bad else None
